@@ -17,7 +17,7 @@ import (
 // is driven; the tape the operations consumed is obtained independently from a
 // second generator with the same seed by raw Read (C14: Reads concatenate).
 type c15Op struct {
-	Op string `json:"op"`          // uintn | perm | subperm | samples | shuffle | read
+	Op string `json:"op"`          // uintn | perm | subperm | samples | shuffle | read | restore (continue on RestoreChacha20PRG(Store()))
 	N  string `json:"n,omitempty"` // decimal; uint64 for uintn, int64 otherwise
 	M  int64  `json:"m,omitempty"`
 	K  int    `json:"k,omitempty"` // read size
@@ -38,7 +38,7 @@ func init() {
 		PropCheck: "prop_bad_ids",
 		Gen:       c15Gen,
 		Run:       c15Run,
-		Rule:      "op sequences on random.NewChacha20PRG (UintN at n in {1,2,3,2^k,2^k+-1,2^64-1} and random n, large-then-small n so that stale uintnBuffer bytes matter, Permutation/SubPermutation/Samples/Shuffle for all (n,m) with n<=8 and random (n,m), Samples with huge n, negative and inconsistent sizes, UintN(0)); every case is run twice with the same seed and ends with a raw 8-byte Read; a case is non-trivial if it consumed tape bytes or exercised an error/panic; distinct by (seed, customizer, op list)",
+		Rule:      "op sequences on random.NewChacha20PRG (UintN at n in {1,2,3,2^k,2^k+-1,2^64-1} and random n, large-then-small n so that stale uintnBuffer bytes matter, Permutation/SubPermutation/Samples/Shuffle for all (n,m) with n<=8 and random (n,m), Samples with huge n, negative and inconsistent sizes, UintN(0); the same mixes on generator objects obtained from RestoreChacha20PRG(Store()) between the operations; raw Reads of 0..65 bytes between the samplers; sizes at narrowing boundaries: Permutation / Shuffle / Samples whose counter crosses 2^8, 2^16, 2^32 inside one call, negative sizes whose low 8 / 16 / 32 bits are a small valid size, sample sizes exceeding the population by a multiple of 2^8 / 2^16 / 2^32; every slice returned by Permutation / SubPermutation (up to its capacity) is overwritten by the harness and re-read at the end - a later call must not write into it - and an error must come with a nil slice); every case is run twice with the same seed and ends with a raw 8-byte Read; a case is non-trivial if it consumed tape bytes or exercised an error/panic; distinct by (seed, customizer, op list)",
 		Shard:     16,
 	})
 }
@@ -156,6 +156,54 @@ func c15Gen(tier string, r *rand.Rand) []Case {
 			un(7), {Op: "perm", N: "4"},
 		})
 	}
+	// the generator object comes from the OTHER constructor: RestoreChacha20PRG(Store()) between the
+	// operations (fresh uintnBuffer, fresh cipher object, same stream)
+	rs := c15Op{Op: "restore"}
+	nvr := 8
+	if th {
+		nvr = 100
+	}
+	for i := 0; i < nvr; i++ {
+		n := int64(2 + r.IntN(60))
+		m := int64(r.IntN(int(n) + 1))
+		big := bnd[len(bnd)-1-r.IntN(40)]
+		ops := []c15Op{rs, un(big), rs, un(bnd[r.IntN(60)]), un(257), rs, {Op: "perm", N: c15i64s(n)}, rs,
+			{Op: "subperm", N: c15i64s(n), M: m}, {Op: "read", K: 1 + r.IntN(70)}, rs, {Op: "samples", N: c15i64s(n), M: m}, rs, rs,
+			{Op: "shuffle", N: c15i64s(n)}, un(big | 1), rs}
+		mk("via-restore", ops)
+	}
+	// raw reads (0, 1, 8, 65 bytes ...) between the samplers: they share one stream and one scratch buffer
+	nri := 6
+	if th {
+		nri = 80
+	}
+	for i := 0; i < nri; i++ {
+		rd := func() c15Op { return c15Op{Op: "read", K: []int{0, 1, 3, 8, 9, 64, 65}[r.IntN(7)]} }
+		n := int64(1 + r.IntN(50))
+		ops := []c15Op{un(1<<40 + uint64(i)), rd(), un(5), rd(), un(300), rd(), {Op: "perm", N: c15i64s(n)}, rd(),
+			{Op: "samples", N: c15i64s(n), M: n / 2}, rd(), un(1), rd(), {Op: "subperm", N: c15i64s(n), M: n / 3}, un(math.MaxUint64)}
+		mk("reads-interleaved", ops)
+	}
+	// sizes at narrowing boundaries.  (1) the population counter i+1 resp. n-i crosses 2^8 / 2^16 / 2^32
+	// inside one call; (2) negative sizes whose low 8 / 16 / 32 bits are a small valid size; (3) sample
+	// sizes larger than the population by a multiple of 2^8 / 2^16 / 2^32
+	for _, n := range []int64{255, 256, 257, 258} {
+		mk("narrowing-sizes", []c15Op{{Op: "perm", N: c15i64s(n)}, {Op: "shuffle", N: c15i64s(n)}, {Op: "subperm", N: c15i64s(n), M: n - 254}, un(uint64(n))})
+	}
+	for _, n := range []int64{257, 258, 1<<16 + 1, 1<<16 + 2, 1<<32 + 1, 1<<32 + 2, 1 << 32, 1<<48 + 1} {
+		mk("narrowing-sizes", []c15Op{{Op: "samples", N: c15i64s(n), M: 3}, un(uint64(n)), {Op: "samples", N: c15i64s(n), M: 0}, un(uint64(n) - 1)})
+	}
+	for _, w := range []int64{1 << 8, 1 << 16, 1 << 32} {
+		a := -w + 4 // negative, low bits = 4
+		mk("narrowing-sizes", []c15Op{
+			{Op: "perm", N: c15i64s(a)}, {Op: "shuffle", N: c15i64s(a)}, {Op: "subperm", N: c15i64s(a), M: 0}, {Op: "subperm", N: c15i64s(a), M: 2},
+			{Op: "samples", N: c15i64s(a), M: 0}, {Op: "samples", N: c15i64s(a), M: 2},
+			{Op: "subperm", N: "5", M: -w + 2}, {Op: "samples", N: "5", M: -w + 2}, // negative m, low bits = 2
+			{Op: "subperm", N: "5", M: w + 2}, {Op: "samples", N: "5", M: w + 2}, {Op: "subperm", N: "5", M: w}, {Op: "samples", N: "5", M: w}, // m > n, low bits <= n
+			{Op: "subperm", N: "0", M: w}, {Op: "samples", N: "0", M: w},
+			un(7), {Op: "perm", N: "4"},
+		})
+	}
 	return cs
 }
 
@@ -212,6 +260,23 @@ func c15RunOnce(in c15In) ([]string, []c15Obs, uint64, bool, error) {
 	var terms []string
 	var obs []c15Obs
 	special := false
+	// returned slices are values: the harness overwrites them right after looking at them (the caller owns
+	// them) and looks again at the end: later calls on the generator must not have written into them
+	type keptSlice struct {
+		op  string
+		raw []int
+	}
+	var kept []keptSlice
+	keptIntact := func() error {
+		for k, ks := range kept {
+			for i, v := range ks.raw {
+				if v != -1-i {
+					return implViolation("the slice returned by call #%d (%s) was written to by a later call on the same generator (element %d)", k, ks.op, i)
+				}
+			}
+		}
+		return nil
+	}
 	ops := append(append([]c15Op{}, in.Ops...), c15Op{Op: "read", K: 8}) // trailing raw read: position check
 	for _, op := range ops {
 		switch op.Op {
@@ -258,7 +323,31 @@ func c15RunOnce(in c15In) ([]string, []c15Obs, uint64, bool, error) {
 			} else {
 				terms = append(terms, fmt.Sprintf("OSubPerm %s %s %d%%N %s", c15Z(n), c15Z(op.M), cls, c15Zlist(out)))
 			}
-			obs = append(obs, c15Obs{Op: op.Op, Out: out, Err: es, Panic: p})
+			obs = append(obs, c15Obs{Op: op.Op, Out: append([]int{}, out...), Err: es, Panic: p})
+			if e != nil && out != nil {
+				return nil, nil, 0, false, implViolation("%s(%d, %d) returned an error (%v) together with a non-nil slice", op.Op, n, op.M, e)
+			}
+			// checked BEFORE the new result is overwritten: if the library hands out one internal buffer
+			// again and again, the earlier results have just been overwritten by this call
+			if err := keptIntact(); err != nil {
+				return nil, nil, 0, false, err
+			}
+			for i := range out {
+				out[i] = -1 - i
+			}
+			if full := out[:cap(out)]; len(full) > len(out) { // SubPermutation hands out a prefix: the rest is the caller's too
+				for i := len(out); i < len(full); i++ {
+					full[i] = -1 - i
+				}
+				out = full
+			}
+			kept = append(kept, keptSlice{op.Op, out})
+		case "restore":
+			p2, err := random.RestoreChacha20PRG(prg.Store())
+			if err != nil {
+				return nil, nil, 0, false, implViolation("RestoreChacha20PRG(Store()) failed: %v", err)
+			}
+			prg = p2
 		case "samples", "shuffle":
 			n, err := strconv.ParseInt(op.N, 10, 64)
 			if err != nil {
@@ -319,6 +408,9 @@ func c15RunOnce(in c15In) ([]string, []c15Obs, uint64, bool, error) {
 		default:
 			return nil, nil, 0, false, fmt.Errorf("unknown op %q", op.Op)
 		}
+	}
+	if err := keptIntact(); err != nil {
+		return nil, nil, 0, false, err
 	}
 	st := prg.Store()
 	consumed := binary.LittleEndian.Uint64(st[len(st)-8:])
